@@ -150,6 +150,31 @@ def split_steps(text):
     return steps
 
 
+def mm_skeleton(text, target='goal'):
+    """the ProofExp that translate.main builds for a Metamath database (same construction, not trusted: only used to
+    obtain the pretty rendering next to the binary one)"""
+    from proof_generation.metamath import translate as T
+    from proof_generation.metamath.parser import parse_database
+    from proof_generation.metamath.converter.converter import MetamathConverter
+    from proof_generation.metamath.converter.representation import AxiomWithAntecedents
+    from proof_generation.proof import ProofExp
+    converter = MetamathConverter(parse_database(text))
+    axs = []
+    for name in converter.exported_axioms:
+        ax = converter.get_axiom_by_name(name)
+        axs.append(T.convert_to_implication(ax.antecedents, ax.pattern) if isinstance(ax, AxiomWithAntecedents) else ax.pattern)
+    cls = [converter.get_lemma_by_name(n).pattern for n in converter.lemmas]
+
+    class Skel(ProofExp):
+        def __init__(self):
+            super().__init__(axioms=list(axs), claims=list(cls))
+
+        def execute_proofs_phase(self, interpreter):
+            assert interpreter.phase == ExecutionPhase.Proof
+            T.exec_proof(converter, target, self, interpreter)
+    return Skel()
+
+
 def do_prettybin(req):
     """serialise the same module in both formats (same optimise setting) through ProofExp.serialize itself"""
     import tempfile, os
@@ -159,7 +184,8 @@ def do_prettybin(req):
     B = Bridge()
     out = {'built': False}
     try:
-        mk = (lambda: shipped(req['name'])) if 'name' in req else (lambda: lemmas.build_module(Bridge(), req['module']))
+        mk = (lambda: shipped(req['name'])) if 'name' in req else (lambda: mm_skeleton(req['mmtext'])) if 'mmtext' in req else \
+            (lambda: lemmas.build_module(Bridge(), req['module']))
         with tempfile.TemporaryDirectory() as d:
             mk().serialize(Path(d) / 'm', OutputFormat.Binary, req['optimize'])
             mk().serialize(Path(d) / 'm', OutputFormat.Pretty, req['optimize'])
